@@ -95,8 +95,11 @@ func (c *Case) c15Exec(src string, d *xdoc.Doc, ctx *xdoc.Node) {
 }
 
 func exoticDoc(g *xgen.G) *xdoc.Doc {
-	if g.Intn(5) == 0 {
+	switch g.Intn(6) {
+	case 0:
 		return g.DeepTree() // 10-33 levels: depth-indexed engine state
+	case 1:
+		return g.NameLikeTree(xgen.Names) // text whose data equals element names, reported as LocalName()
 	}
 	o := xgen.DefaultTree()
 	o.MaxDepth, o.MaxFan = 3, 4
